@@ -116,3 +116,85 @@ Example C11_control_sets_refuted_shipped :
   /\ P11 f3_cfg shipped_ev f3_req f3_world_shipped (validate f3_cfg shipped_ev f3_req f3_world_shipped) = true.
 Proof. exact P11_control_sets_refuted_shipped_proof. Qed.
 Print Assumptions C11_control_sets_refuted_shipped.
+
+(** ---- composition with the standard (C02), for the shipped evaluator ---- *)
+From PSA Require Import Spec.PSS Spec.P02 Proofs.AdmFactsA Proofs.EndToEnd Proofs.EndToEnd2 Proofs.C02_table.
+
+(** a namespace request whose dry run is reached (the trace lists pods), the
+    listing answers, nothing is truncated (no expiry, the non-exempt pods fit
+    the cap): the response has NO warning exactly when every listed pod outside
+    the exempt runtime classes complies with the standard (Spec/PSS.v) at the
+    new enforce level:version; otherwise the first warning is the header
+    naming the namespace and the new level:version *)
+Theorem C11_end_to_end : forall c relax r w name ls pods m,
+  let x := enforce (spec_policy ls (cf_defaults c)) in
+  let o := validate c (shipped_evaluator relax) r w in
+  is_namespaces r = true -> r_object r = ONamespace name ls ->
+  existsb is_list (snd o) = true ->
+  w_pods w = Some pods -> w_expire_after w = None ->
+  List.length (filter (fun p => negb (s_exempt_rc c p)) pods) <= cf_max_pods c ->
+  (forall p, In p pods -> s_exempt_rc c p = false -> api_valid p = true /\ relaxed_for relax p = false) ->
+  effective_minor (lv_version x) = Some m ->
+  (rs_warnings (fst o) = [] <->
+   forall p, In p pods -> s_exempt_rc c p = false -> compliant (lv_level x) m p = true)
+  /\ ((exists p, In p pods /\ s_exempt_rc c p = false /\ compliant (lv_level x) m p = false) ->
+      exists rest, rs_warnings (fst o) =
+        ("existing pods in namespace " ++ go_quote name ++ " violate the new PodSecurity enforce level "
+         ++ go_quote (lv_string x))%string :: rest).
+Proof. exact C11_end_to_end_proof. Qed.
+Print Assumptions C11_end_to_end.
+
+(** when the dry run is reached, in terms of the request alone *)
+Theorem C11_reaches_dry_run : forall c ev r w name ls oname old_ls,
+  is_namespaces r = true -> r_subresource r = ""%string -> r_op r = OpUpdate ->
+  r_object r = ONamespace name ls -> r_old r = ONamespace oname old_ls ->
+  spec_errs ls = [] -> dry_run_required c r ls old_ls = true ->
+  existsb is_list (snd (validate c ev r w)) = true.
+Proof. exact C11_reaches_dry_run_proof. Qed.
+Print Assumptions C11_reaches_dry_run.
+
+(** the two together, premises on the inputs only: a namespace UPDATE with
+    well-formed new labels whose enforce part tightens is allowed, and answers
+    without warnings iff all listed non-exempt pods comply *)
+Theorem C11_end_to_end_update : forall c relax r w name ls oname old_ls pods m,
+  let x := enforce (spec_policy ls (cf_defaults c)) in
+  let o := validate c (shipped_evaluator relax) r w in
+  is_namespaces r = true -> r_subresource r = ""%string -> r_op r = OpUpdate ->
+  r_object r = ONamespace name ls -> r_old r = ONamespace oname old_ls ->
+  spec_errs ls = [] -> dry_run_required c r ls old_ls = true ->
+  w_pods w = Some pods -> w_expire_after w = None ->
+  List.length (filter (fun p => negb (s_exempt_rc c p)) pods) <= cf_max_pods c ->
+  (forall p, In p pods -> s_exempt_rc c p = false -> api_valid p = true /\ relaxed_for relax p = false) ->
+  effective_minor (lv_version x) = Some m ->
+  rs_allowed (fst o) = true
+  /\ (rs_warnings (fst o) = [] <->
+      forall p, In p pods -> s_exempt_rc c p = false -> compliant (lv_level x) m p = true).
+Proof. exact C11_end_to_end_update_proof. Qed.
+Print Assumptions C11_end_to_end_update.
+
+(** the hypotheses are jointly satisfiable: UPDATE from no labels to
+    enforce=baseline over two listed pods, one of them violating baseline:
+    allowed, header + one line; over two compliant pods: no warning *)
+Example C11_end_to_end_in_scope :
+  let ls := [(enforce_level_label, "baseline")]%string in
+  let r := e2e_ns_request ls [] in
+  let x := enforce (spec_policy ls (cf_defaults cex_cfg)) in
+  let w := e2e_ns_world [example_pod_fixed; example_pod] in
+  let w' := e2e_ns_world [example_pod_fixed; example_pod_fixed] in
+  let o := validate cex_cfg (shipped_evaluator false) r w in
+  let o' := validate cex_cfg (shipped_evaluator false) r w' in
+  is_namespaces r = true /\ r_subresource r = ""%string /\ r_op r = OpUpdate
+  /\ spec_errs ls = [] /\ dry_run_required cex_cfg r ls [] = true
+  /\ existsb is_list (snd o) = true /\ existsb is_list (snd o') = true
+  /\ Nat.leb (List.length (filter (fun p => negb (s_exempt_rc cex_cfg p)) [example_pod_fixed; example_pod]))
+             (cf_max_pods cex_cfg) = true
+  /\ effective_minor (lv_version x) = Some 32%N
+  /\ forallb (fun p => api_valid p && negb (relaxed_for false p) && negb (s_exempt_rc cex_cfg p))
+             [example_pod_fixed; example_pod] = true
+  /\ compliant (lv_level x) 32 example_pod_fixed = true /\ compliant (lv_level x) 32 example_pod = false
+  /\ rs_allowed (fst o) = true
+  /\ rs_warnings (fst o) =
+       ["existing pods in namespace ""ns"" violate the new PodSecurity enforce level ""baseline:latest""";
+        "p: non-default capabilities, seccompProfile"]%string
+  /\ rs_allowed (fst o') = true /\ rs_warnings (fst o') = [].
+Proof. vm_compute. repeat split. Qed.
